@@ -5,6 +5,7 @@
 (* concatenated; each begins with a `reset` line carrying the per-key totals of *)
 (* the generated input.  Events (in the order of the harness's sequence lock): *)
 (*   senter{} sexit{key} renter{snap:[{k,n}], matched} rexit{} ret{} end{}      *)
+(*   sbulk{d:[{k,n}]}   - a run of samples without a render in between          *)
 (*   crash{class} hang{}   - never explained by the specification              *)
 (* A trace the specification cannot explain is recorded in `bad` (trace id,    *)
 (* line of the rejected event, why) and skipped.                                *)
@@ -34,6 +35,7 @@ TReset ==
 
 TSEnter == IsEv("senter") /\ SEnter /\ UNCHANGED <<tid, ended>>
 TSExit  == IsEv("sexit") /\ SExit(Ev.key) /\ UNCHANGED <<tid, ended>>
+TSBulk  == IsEv("sbulk") /\ SBulk(TotalFn(Ev.d)) /\ UNCHANGED <<tid, ended>>
 TREnter ==
   /\ IsEv("renter")
   /\ KeysOf(Ev.snap) \subseteq DOMAIN total
@@ -47,7 +49,7 @@ TEnd ==
   /\ ended' = TRUE
   /\ UNCHANGED <<total, cnt, inS, inR, snap, snapM, fresh, returned, tid>>
 
-TStep == TReset \/ TSEnter \/ TSExit \/ TREnter \/ TRExit \/ TRet \/ TEnd
+TStep == TReset \/ TSEnter \/ TSExit \/ TSBulk \/ TREnter \/ TRExit \/ TRet \/ TEnd
 
 RECURSIVE NextReset(_)
 NextReset(i) == IF i > Len(Trace) \/ Trace[i].event = "reset" THEN i ELSE NextReset(i + 1)
@@ -67,6 +69,9 @@ Why ==
                        ELSE IF Ev.matched < SumF(cnt) THEN "matched-below-shown"
                        ELSE "matched-above-input"
     [] e = "sexit" -> IF ~inS THEN "exit-without-enter" ELSE "sample-not-in-input"
+    [] e = "sbulk" -> IF inR THEN "sample-during-render"
+                      ELSE IF ~(KeysOf(Ev.d) \subseteq DOMAIN total) THEN "sample-not-in-input"
+                      ELSE "count-above-final"
     [] e = "ret" -> IF inS \/ inR THEN "return-while-busy"
                     ELSE IF ~fresh THEN "no-render-after-last-sample"
                     ELSE IF snap # total THEN "final-render-incomplete"
